@@ -52,14 +52,15 @@ CHECKS = {
              "statement's precondition (all nodes registered => distinct ids); hand-written model of tree.py tied by correspondence.",
         design="5/C06"),
     "C07": dict(
-        technique="Lean 4 proof: bottom-up matcher over Tree tables = top-down documented semantics `sat` (reversal theorem), findall worklist sound/complete/duplicate-free w.r.t. `sat` + differential correspondence (parse, findall, find, match on every node) vs real ASTXpath",
+        technique="Lean 4 proof: bottom-up matcher over Tree tables = top-down documented semantics `sat` (reversal theorem), findall worklist sound/complete/duplicate-free w.r.t. `sat`; the element test and the bottom-up matcher are REGENERATED from match/xpath.py on every run (py2lean_k) and bridge theorems prove the model equal to them (match_gen_eq_sat) + differential correspondence (parse, findall, find, match on every node) vs real ASTXpath",
         text="Theorems (every tree without repeated objects, every element list): match(root, n) computed from the Tree tables = sat(chain of n); "
              "findall yields exactly (and once) the positions whose chain satisfies sat; find = head of findall; hence n in findall iff match. "
              "Parser: parseXPath (lexer with maximal munch, recursive descent, transformer walk) returns exactly the denoted elements for every rendering of every "
              "well-formed path with arbitrary whitespace between tokens (parseXPath_render, all index digits significant, relative = leading //). Correspondence compares elements, findall order, "
              "find and match for every node on seeded trees with tuples up to 14 and derived + random + mutated xpaths.",
         note="Trusted: Lean kernel + 3 axioms; lark's LALR/contextual lexer re-modelled by hand; dict de-duplication keyed by object identity; "
-             "model tied to /repo by correspondence only (the lark grammar is re-modelled by hand).",
+             "tie: correspondence for everything + translation for _match_node_element (required bridge: a broken bridge is a broken obligation) and _match_node_xpath (optional bridge: when it "
+             "does not re-prove, the evidence says so and the correspondence carries that function); the lark grammar is re-modelled by hand.",
         design="5/C07"),
     "C03": dict(
         technique="Lean 4 proof: registry state machine (id assignment, detach, replace, duplicate, _deserialize, weak-value gc) preserves the invariant by induction over operation histories, for an arbitrary digest function + op-by-op differential correspondence with the real NODE_REGISTRY",
@@ -120,7 +121,7 @@ CHECKS = {
         note="Trusted: typing-module introspection (get_type_hints/get_origin/get_args), mashumaro's own refusals excluded from generation; model tied by correspondence.",
         design="5/C11"),
     "C12": dict(
-        technique="Lean 4 proof: dataclass field-order resolution + the generated accessor bodies (sorted/unsorted branches, skip chain) + static get_property_fields = filter-by-flags ∘ declaration/name order, for every class hierarchy, instance and flag vector + differential correspondence on generated hierarchies in every first-use order",
+        technique="Lean 4 proof: dataclass field-order resolution + the generated accessor bodies (sorted/unsorted branches, skip chain) + static get_property_fields = filter-by-flags ∘ declaration/name order, for every class hierarchy, instance and flag vector; the loop body of the static get_property_fields is REGENERATED from node.py on every run and proved equal to the model (GenBridge.propertyFieldYielded_eq_gen) + differential correspondence on generated hierarchies in every first-use order",
         text="Theorems (35): fields = declaration order of the hierarchy with overrides in their slot; every child/property accessor = spec (values, fields, indices from 0, absent "
              "optionals omitted, a user property yielded unless non-comparable & skip_non_compare or non-init & skip_non_init, id/content_id/origin by their own flags); static and instance variants "
              "agree; sorted variant = name order; results independent of child truthiness and of which class of a hierarchy was used first (per-class installation). Correspondence: generated "
@@ -144,7 +145,7 @@ CHECKS = {
         technique="Lean 4 proof over definitions REGENERATED from origin.py by a Python-AST->Lean translator on every run (interval laws by grind) + hand model of merge/concat/MultiOrigin + exhaustive-grid differential correspondence",
         text="Theorems about the generated kernels (validity, containment partial order, overlap symmetric incl. touching, a<b iff end<start, hull contains/commutative/associative/idempotent) and the "
              "hand model (flat multi-origins listing the non-empty operands in order, NoOrigin/single cases, same-source overlapping code origins add to the hull with exact get_raw slice, fqn composition). "
-             "A semantic change of a kernel breaks a proof obligation; the in-process oracles then search the grid for the failing input.",
+             "A semantic change of a kernel breaks a proof obligation; the last good generated definitions are then put back, and the correspondence on the exhaustive grid plus the in-process oracles produce the failing input.",
         note="Trusted: the translator (validated by running generated definitions against the real methods on the grid), Python comparison reflection rule; == level laws under coherence of points.",
         design="5/C15"),
     "C16": dict(
@@ -162,20 +163,20 @@ CHECKS = {
         note="Trusted: lark LALR + contextual lexer re-modelled by hand (a disagreement on garbage input would be a false alarm of the check, to be fixed in the model); Python `re` compile; whitespace only between tokens and after the last one.",
         design="5/C17"),
     "C18": dict(
-        technique="Lean 4 proof (partial): heap + registry state machine of the legacy parent-aware nodes as coded; structural-consistency invariant preserved by construct / attach / detach / detach_self / duplicate for all states, replace / replace_with for receivers without a parent + op-by-op differential correspondence and the invariant oracle on the real objects over random admissible histories",
-        text="Theorems: inv_init, inv_step_new / attach / detach / dup (all states, no admissibility hypothesis), parent_is_holder / holder_is_parent, ancestors_chain, cid_eq_spec (cached content id = that of an "
-             "independently built equal tree); inv_step_replace for ANY receiver (invariant with one hole, _replace_child, the _reset_content_id walk up the ancestors); PARTIAL: replace_with proved for receivers without a parent and, with a parent, "
-             "for a detached new node under a decidable acyclicity check; replace_with(None) under a parent, new = attached root and the transform visitor / transformer are not "
-             "proved: they are covered by the correspondence (state dump of every object after every op vs the model) and by evaluating the invariant directly on the real objects after every operation "
-             "(about 190 000 ops per thorough run).",
-        note="Partial proof (see PARTIAL in evidence). Trusted: sha256 idealised; Python object model of mutable dataclasses; model tied by correspondence; hangs guarded by a 2 s CPU alarm per library call.",
+        technique="Lean 4 proof: heap + registry state machine of the legacy parent-aware nodes as coded; the structural-consistency invariant is preserved by EVERY operation that returns (construct, attach, detach, detach_self, duplicate, replace, replace_with a node / an attached root / None, for any receiver) and hence along every history (inv_step, inv_run); transform visitor and transformer modelled as runs of these primitives driven by a rule table (inv_tvisit_partial / inv_texec_partial: side condition = well-formed requests) + op-by-op differential correspondence (state dump of every object after every op, transformers included) and the invariant oracle on the real objects",
+        text="Theorems: inv_init, inv_step for every LOp (all states, no admissibility hypothesis: the repaired _attach rejects a node that would end up at two positions; a detach() that returns proves there is no cycle through the receiver: detach_no_cycle), "
+             "inv_run / inv_run_init over histories, parent_is_holder / holder_is_parent, ancestors_chain, cid_eq_spec (cached content id = that of an independently built equal tree: changes reach all ancestors), "
+             "replace_with: remove-child variant with the index shift (replaceChild_none_inv), attached-root replacement (takeOver_attach_invX), receiver with or without parent (replaceWith_inv). "
+             "Transformers: tvisit / texec are runs of primitive steps (tvisit_is_run, texec_is_run), preserve Inv when every constituent request is well-formed (…_partial), leave the state unchanged when no rule matches (texec_unchanged). "
+             "Everything is also covered by the correspondence and by evaluating the invariant directly on the real objects after every operation.",
+        note="Full proof for the node operations; for the transformers the well-formedness of the rule-made requests is a hypothesis (see PARTIAL in evidence). Trusted: sha256 idealised; Python object model of mutable dataclasses; user callbacks represented by rule tables; model tied by correspondence; hangs guarded by a 2 s CPU alarm per library call.",
         design="5/C18"),
     "C19": dict(
-        technique="Lean 4 proof (partial): failure-frame theorems on the legacy state machine (a rejected construct / attach / replace leaves every pre-existing record and the registry unchanged) + frame oracle on the real objects for every rejected operation of a directed stream of to-be-rejected ops",
+        technique="Lean 4 proof: failure-frame theorems on the legacy state machine (a rejected construct / attach / replace / replace_with / duplicate leaves every pre-existing record and the registry unchanged); transform visitor rejected while its clone is visited: frame theorem (fail_frame_tvisit_in_visit); the transformers' partial commits are proved NOT to satisfy the frame on decide-checked witnesses (known findings) + op-by-op differential correspondence and the frame oracle on the real objects for every rejected operation of a directed stream of to-be-rejected ops",
         text="Theorems: fail_frame_new, fail_frame_attach (state unchanged), detach_never_rejected, fail_frame_replace_keys, fail_frame_replace (the repaired rollback, any receiver, under Inv), "
-             "fail_frame_rwith (any rejection incl. failed attach of the new node: rollback restores exactly the original records and lookups), fail_frame_dup. PARTIAL: the transformers have no theorem (three known findings there); everything is also explored by the frame oracle "
+             "fail_frame_rwith (any rejection incl. failed attach of the new node: rollback restores exactly the original records and lookups), fail_frame_dup. Transformers: fail_frame_tvisit_in_visit (unconditional, for an attached receiver rejected during the visit of its clone), tvisit_fail_before_commit_frame_partial / tvisit_fail_at_only_commit_frame_partial, witnesses texec_partial_commit_fails / tvisit_detached_partial_commit_fails for the three known findings; everything is also explored by the frame oracle "
              "(rejections arising at first / middle / last child, direct child or grandchild, attached or detached arguments). Three known findings (transformers commit node by node, no roll-back across nodes) are listed by signature.",
-        note="Partial proof; known findings in known_findings.json (C19 frame|texec…, frame|tvisit…). Trusted as C18.",
+        note="Full proof for the node operations; transformers: frame proved up to the first commit, the multi-commit cases are known findings (known_findings.json: C19 frame|texec…, frame|tvisit…) with Lean witnesses. Trusted as C18.",
         design="5/C18"),
     "C20": dict(
         technique="Lean 4 proof: legacy dfs/bfs/gather loops simulate the C05 loops (start node offered like any position), legacy xpath match = `sat` via the C07 reversal theorem, calculate_xpath spells chains + differential correspondence on legacy trees",
